@@ -1,10 +1,7 @@
 package acc
 
 import (
-	"fmt"
 	"strconv"
-
-	"github.com/practable/relay/verifharness/lib"
 )
 
 func cloneClaims(m map[string]interface{}) map[string]interface{} {
@@ -238,11 +235,6 @@ func Unrouted(auth Bearer) []Req {
 		mk("badmethod", "OPTIONS", "/bids/deny"), mk("badmethod", "HEAD", "/status"), mk("badmethod", "TRACE", "/bids/allow"),
 	}
 }
-
-// Pick returns a random element index.
-func Pick(r *lib.Rng, n int) int { return r.Intn(n) }
-
-var _ = fmt.Sprintf
 
 // Label names the mutation.
 func (m mutation) Label() string { return m.label }
